@@ -675,7 +675,7 @@ pub fn run_supervisor(p: &dyn Property, a: &RunArgs) -> i32 {
         "wall_s": wall,
         "violations": real.len(),
     });
-    let evdir = format!("{}/evidence", VERIF);
+    let evdir = std::env::var("FMLV_EVIDENCE_DIR").unwrap_or_else(|_| format!("{}/evidence", VERIF));
     let _ = std::fs::create_dir_all(&evdir);
     let evpath = format!("{}/{}.json", evdir, id);
     std::fs::write(&evpath, serde_json::to_string_pretty(&evidence).unwrap()).unwrap();
@@ -692,7 +692,7 @@ pub fn run_supervisor(p: &dyn Property, a: &RunArgs) -> i32 {
         wall
     );
     if !real.is_empty() {
-        let rdir = format!("{}/replays", VERIF);
+        let rdir = std::env::var("FMLV_REPLAY_DIR").unwrap_or_else(|_| format!("{}/replays", VERIF));
         let _ = std::fs::create_dir_all(&rdir);
         for v in &real {
             let body = json!({"property": id, "seed": a.seed, "tier": a.tier.name(), "kind": v.kind, "detail": v.detail, "case": v.case, "sig": v.sig});
